@@ -855,7 +855,9 @@ def _finalize_parse_info(text, nodes, pos, fullparse):
 
     for node in visit(nodes):
         pos_info = node._metadata.position_info
-        if pos_info:
+        # (An object that comes from another, finished parse -- say, one that
+        # inline Python ran in the middle of this one -- was converted already.)
+        if pos_info and not isinstance(pos_info, _PositionInfo):
             start, end = pos_info
             end -= 1
             node._metadata.position_info = _PositionInfo(
